@@ -73,11 +73,11 @@ def run(ck):
     ck.finish("exploration",
               "grammar-generated RFC 8259 documents with abstract trees (all escape forms, surrogate pairs, numbers across the double range, nesting 0..600 around the 512 bound) compared node by node; "
               "their single-byte mutations, fragment garbage and (thorough) libFuzzer input under the any-bytes oracle (sentinel untouched on failure, UTF-8/depth invariants, save/load fixpoint); "
-              "API-built trees written compact/readable into streams with ','-decimal/grouping numpunct and booster ICU de_DE/fr_FR locales, validated by a strict RFC recogniser and python json; "
+              "API-built trees (a third of them with a value replaced by one of its own parts through the reference-taking setters) written compact/readable into streams with ','-decimal/grouping numpunct and booster ICU de_DE/fr_FR locales, validated by a strict RFC recogniser and python json; "
               "typed extraction for 12 integer types, float, double. non-trivial = distinct document texts",
               "evaluations_total", "docs", min_evals=100000,
               required_nonzero=("any_accepted", "any_rejected", "rfc_docs_within_bound", "rfc_docs_beyond_bound", "rfc_docs_depth_500_512", "writer_outputs", "extractions_returned",
-                                "duplicate_key_docs", "python_crosschecks"))
+                                "duplicate_key_docs", "python_crosschecks", "values_replaced_by_own_part"))
 
 
 def replay(j):
